@@ -72,6 +72,33 @@ func (n not) Build(context Context) (string, []any, error) {
 	return fmt.Sprintf("not (%s)", sub), args, nil
 }
 
+// The builders marshal to the JSON form ParseJSON reads, so that a query carried inside
+// a pagination cursor can be decoded again.
+
+func (set set) MarshalJSON() ([]byte, error) {
+	items := set.items
+	if items == nil {
+		items = []Builder{}
+	}
+	return json.Marshal(map[string]any{
+		"$" + set.operator: items,
+	})
+}
+
+func (k keyValue) MarshalJSON() ([]byte, error) {
+	return json.Marshal(map[string]any{
+		k.operator: map[string]any{
+			k.key: k.value,
+		},
+	})
+}
+
+func (n not) MarshalJSON() ([]byte, error) {
+	return json.Marshal(map[string]any{
+		"$not": n.expression,
+	})
+}
+
 func Not(expr Builder) not {
 	return not{
 		expression: expr,
@@ -203,6 +230,16 @@ func mapMapToExpression(m map[string]any) (Builder, error) {
 			return nil, errors.Wrap(err, "parsing $and")
 		}
 		return and, nil
+	case "$not":
+		sub, ok := value.(map[string]any)
+		if !ok {
+			return nil, fmt.Errorf("unexpected type %T when decoding $not clause", value)
+		}
+		expr, err := mapMapToExpression(sub)
+		if err != nil {
+			return nil, errors.Wrap(err, "parsing $not")
+		}
+		return Not(expr), nil
 	case "$match", "$gte", "$lte", "$gt", "$lt":
 		match, err := parseKeyValue(operator, value)
 		if err != nil {
